@@ -142,6 +142,8 @@ func runC03(c *Ctx) {
 	c03Aliasing(c)
 	c03Kill(c)
 	c03Keys(c)
+	c03Rebuild(c)
+	c03Identities(c)
 	opt := c.decl(compilerPkg, "Optimizer.OptimizeStatements")
 	kill := c.decl(compilerPkg, "getModifiedVariablesInStmt")
 	if opt == nil || kill == nil {
@@ -1047,6 +1049,15 @@ func c03Keys(c *Ctx) {
 				}
 				lossy := regexp.MustCompile(`%[-+ #0]*[0-9]*(\.[0-9]*)?[feEGF]`).MatchString(f) || regexp.MustCompile(`%[-+ #0]*[0-9]*\.[0-9]+[gv]`).MatchString(f)
 				n++
+				// a string payload embedded with %s is ambiguous (it can contain the key's own separators)
+				if strings.Contains(f, "%s") && len(args) > 1 {
+					if derivesFrom(args[1], func(v ssa.Value) bool {
+						nt, fld, ok := fieldOf(v)
+						return ok && nt != nil && nt.Obj().Name() == "StringLiteral" && fld == "Value"
+					}) {
+						lossy = true
+					}
+				}
 				c.ob("C03-R9", fnKey(fn)+"#key-format-is-exact:"+f, call.Pos(), !lossy, "an expression key is built with the fixed-precision format "+f+": two different float constants that agree in the printed digits share one key, and common-subexpression elimination replaces one computation by the other's result")
 			case "strconv.FormatFloat":
 				n++
@@ -1190,6 +1201,285 @@ func c03Keys(c *Ctx) {
 		c.ob("C03-R9", fnKey(ek)+"#operand-order-normalised-only-for-commuting-operators-"+itoa(nSwap), phi.Pos(), !bad, "the expression key exchanges the two operands (so that `l op r` and `r op l` share a key) for operators that do not commute for every operand type: `+` concatenates strings, so `a + b` is reused for `b + a` and \"AdaLovelace\" is returned where \"LovelaceAda\" is due")
 	})
 	c.Sites["C03-R9#operand-order-normalisations"] = nSwap
+}
+
+// c03Rebuild: R10 (rebuilt nodes are complete) and R11 (no scope flattening).
+func c03Rebuild(c *Ctx) {
+	c.rule("C03-R10", "COPY: when an optimiser arm rebuilds a syntax-tree node of the same type as the node it matched, the new node sets every scalar field of that type (status codes, variable names, operators): a scalar left out silently takes its zero value - `> v :: 201` lost its status, a loop would lose its key variable")
+	astPathL := modPath + "/pkg/ast"
+	n := 0
+	for _, fn := range c.srcFuncs(compilerPkg) {
+		top := topParent(fn)
+		if top.Signature.Recv() == nil {
+			continue
+		}
+		if rn := namedOf(top.Signature.Recv().Type()); rn == nil || rn.Obj().Name() != "Optimizer" {
+			continue
+		}
+		// node types this function matches by type assertion / type switch
+		matched := map[string]bool{}
+		eachInstr(fn, func(_ *ssa.BasicBlock, _ int, ins ssa.Instruction) {
+			if ta, ok := ins.(*ssa.TypeAssert); ok {
+				if nt := namedOf(ta.AssertedType); nt != nil && nt.Obj().Pkg() != nil && nt.Obj().Pkg().Path() == astPathL {
+					matched[nt.Obj().Name()] = true
+				}
+			}
+		})
+		k := 0
+		eachInstr(fn, func(b *ssa.BasicBlock, _ int, ins ssa.Instruction) {
+			al, ok := ins.(*ssa.Alloc)
+			if !ok {
+				return
+			}
+			nt := namedOf(al.Type().(*types.Pointer).Elem())
+			if nt == nil || nt.Obj().Pkg() == nil || nt.Obj().Pkg().Path() != astPathL || !matched[nt.Obj().Name()] {
+				return
+			}
+			st, ok := nt.Underlying().(*types.Struct)
+			if !ok || st.NumFields() < 2 {
+				return
+			}
+			// only rebuilds made while handling a node of that very type: the block is dominated by the ok-edge of an assertion to it
+			inArm := false
+			eachInstr(fn, func(_ *ssa.BasicBlock, _ int, x ssa.Instruction) {
+				ta, ok := x.(*ssa.TypeAssert)
+				if !ok {
+					return
+				}
+				if an := namedOf(ta.AssertedType); an == nil || an.Obj() != nt.Obj() {
+					return
+				}
+				if ta.Block().Dominates(b) {
+					inArm = true
+				}
+			})
+			if !inArm {
+				return
+			}
+			set := map[int]bool{}
+			whole := false
+			for _, r := range refs(al) {
+				if ws, ok := r.(*ssa.Store); ok && ws.Addr == ssa.Value(al) {
+					whole = true // a copy of the whole node (value-form arm binding)
+				}
+				if fa, ok := r.(*ssa.FieldAddr); ok {
+					for _, rr := range refs(fa) {
+						if s2, ok := rr.(*ssa.Store); ok && s2.Addr == ssa.Value(fa) {
+							set[fa.Field] = true
+						}
+					}
+				}
+			}
+			if whole {
+				return
+			}
+			// scalar parts (status, variable names, operators): leaving out a block or an expression is a visible
+			// transformation judged by the other rules; a scalar left out is lost without trace
+			var missing []string
+			for i := 0; i < st.NumFields(); i++ {
+				f := st.Field(i)
+				if _, isBasic := f.Type().Underlying().(*types.Basic); !set[i] && isBasic {
+					missing = append(missing, f.Name())
+				}
+			}
+			n++
+			k++
+			c.ob("C03-R10", fnKey(fn)+"#rebuilt-"+nt.Obj().Name()+"-is-complete-"+itoa(k), al.Pos(), len(missing) == 0, "the "+nt.Obj().Name()+" built here to replace the matched one does not set {"+strings.Join(missing, ", ")+"}: the optimised program silently loses that part of the statement")
+		})
+	}
+	c.Sites["C03-R10#rebuilt-nodes"] = n
+	c.floor("C03-R10", 4)
+
+	c.rule("C03-R11", "SCOPE: the statements of a nested block (ThenBlock / ElseBlock / a loop body) are appended to the enclosing statement list only behind a test that the block declares no variable: a block is a scope, and a `$ y` moved out of it collides with or shadows the enclosing scope's `y` (the optimised program then fails to compile, or reads another variable). Hoisting by loop-invariant code motion is judged by C03-R3")
+	if fn := c.fn(compilerPkg, "Optimizer.OptimizeStatements"); fn != nil {
+		k := 0
+		eachInstr(fn, func(b *ssa.BasicBlock, _ int, ins ssa.Instruction) {
+			call, ok := ins.(*ssa.Call)
+			if !ok {
+				return
+			}
+			bi, ok := call.Call.Value.(*ssa.Builtin)
+			if !ok || bi.Name() != "append" || len(call.Call.Args) != 2 {
+				return
+			}
+			// the appended slice comes from optimising a block field of the matched statement
+			fromNested := func(v ssa.Value) bool {
+				return derivesFrom(v, func(x ssa.Value) bool {
+					rc, ok := x.(*ssa.Call)
+					if !ok || staticFn(rc) != fn {
+						return false
+					}
+					if sl, isSl := rc.Call.Args[1].(*ssa.Slice); isSl {
+						if _, isLit := sl.X.(*ssa.Alloc); isLit {
+							return false // a one-statement list built here (loop-invariant hoisting: C03-R3)
+						}
+					}
+					return derivesFrom(rc.Call.Args[1], func(y ssa.Value) bool {
+						_, f, ok := fieldOf(y)
+						return ok && (f == "ThenBlock" || f == "ElseBlock" || f == "Body" || f == "Default")
+					})
+				})
+			}
+			if !fromNested(call.Call.Args[1]) {
+				return
+			}
+			if _, isFreshArr := call.Call.Args[1].(*ssa.Slice); isFreshArr {
+				if al, ok := call.Call.Args[1].(*ssa.Slice).X.(*ssa.Alloc); ok && al.Heap {
+					return // append(result, oneStatement): a single rebuilt statement, not a splice
+				}
+			}
+			k++
+			// guarded by a declares-variable style predicate on the false edge
+			guarded := false
+			for x := b; x != nil; x = x.Idom() {
+				p := x.Idom()
+				if p == nil {
+					break
+				}
+				iff := ifOf(p)
+				if iff == nil || len(x.Preds) != 1 {
+					continue
+				}
+				cond, truth := iff.Cond, p.Succs[0] == x
+				for {
+					u, isNot := cond.(*ssa.UnOp)
+					if !isNot || u.Op != token.NOT {
+						break
+					}
+					cond, truth = u.X, !truth
+				}
+				if pc, ok := cond.(*ssa.Call); ok && !truth {
+					if sf := staticFn(pc); sf != nil && sf.Signature.Results().Len() == 1 && len(pc.Call.Args) >= 1 && isStmtSlice(pc.Call.Args[len(pc.Call.Args)-1].Type()) {
+						guarded = true
+					}
+				}
+			}
+			c.ob("C03-R11", fnKey(fn)+"#nested-block-spliced-only-if-it-declares-nothing-"+itoa(k), call.Pos(), guarded, "the optimised statements of a nested block are appended to the enclosing list without a test that the block declares no variable: `if true { $ y = 1 }; $ y = 2` compiles unoptimised and fails with 'cannot redeclare variable' optimised")
+		})
+		c.Sites["C03-R11#splices"] = k
+	}
+}
+
+// c03Identities: R12 - rewrites of an operator application whose validity depends on the operand's type.
+func c03Identities(c *Ctx) {
+	c.rule("C03-R12", "TYPE: the optimiser replaces `x op literal` by one of its operands or by a constant, or uses an operand twice, only when that is valid for every type and every effect of x: GlyphLang operands are dynamically typed (x may be a float, a string, null, or a call with side effects), so `x + 0 -> x`, `x * 0 -> 0`, `false && x -> false` and `x * 2 -> x + x` change results, turn type errors into values, skip or repeat the evaluation of x. Decided structurally: a function taking the two operands of a binary operation returns one of them (or a fresh literal) in place of the operation, or builds a binary node with the same operand on both sides")
+	for _, fn := range c.srcFuncs(compilerPkg) {
+		if fn.Parent() != nil || fn.Signature.Recv() == nil {
+			continue
+		}
+		if rn := namedOf(fn.Signature.Recv().Type()); rn == nil || rn.Obj().Name() != "Optimizer" {
+			continue
+		}
+		// operand parameters: two parameters of type ast.Expr next to an ast.BinOp parameter
+		var operands []ssa.Value
+		hasOp := false
+		for _, p := range fn.Params[1:] {
+			if typeIs(p.Type(), modPath+"/pkg/ast", "Expr") {
+				operands = append(operands, p)
+			}
+			if typeIs(p.Type(), modPath+"/pkg/ast", "BinOp") {
+				hasOp = true
+			}
+		}
+		if !hasOp || len(operands) != 2 {
+			continue
+		}
+		isOperand := func(v ssa.Value) bool {
+			return derivesFromOnlyPhis(v, func(x ssa.Value) bool { return x == operands[0] || x == operands[1] })
+		}
+		returnsOperand, returnsLiteral, dup := false, false, false
+		var at token.Pos
+		eachInstr(fn, func(_ *ssa.BasicBlock, _ int, ins ssa.Instruction) {
+			switch x := ins.(type) {
+			case *ssa.Return:
+				v := retVals(x)[0]
+				if isNilConst(stripConv(v)) {
+					return
+				}
+				if isOperand(v) {
+					returnsOperand, at = true, x.Pos()
+				}
+				if mi, ok := v.(*ssa.MakeInterface); ok {
+					if al, ok := mi.X.(*ssa.Alloc); ok {
+						if nt := namedOf(al.Type().(*types.Pointer).Elem()); nt != nil && nt.Obj().Name() == "LiteralExpr" {
+							returnsLiteral = true
+							if at == token.NoPos {
+								at = x.Pos()
+							}
+						}
+					}
+				}
+			case *ssa.Alloc:
+				nt := namedOf(x.Type().(*types.Pointer).Elem())
+				if nt == nil || nt.Obj().Name() != "BinaryOpExpr" {
+					return
+				}
+				var l, r ssa.Value
+				for _, rf := range refs(x) {
+					if fa, ok := rf.(*ssa.FieldAddr); ok {
+						_, f, _ := fieldOf(fa)
+						for _, rr := range refs(fa) {
+							if st, ok := rr.(*ssa.Store); ok && st.Addr == ssa.Value(fa) {
+								if f == "Left" {
+									l = st.Val
+								}
+								if f == "Right" {
+									r = st.Val
+								}
+							}
+						}
+					}
+				}
+				if l != nil && r != nil && l == r {
+					dup = true
+				}
+			}
+		})
+		if returnsOperand || returnsLiteral {
+			c.ob("C03-R12", fnKey(fn)+"#operation-replaced-by-operand-or-constant", at, false, "this function answers `x op literal` with x itself or with a constant for a dynamically typed x: (x+0.0)/2 with x=5 gives 2 instead of 2.5, (x*0)==0 with x=2.5 gives true, \"a\"+0 returns \"a\" instead of a type error, false && (1/z==1) with z=0 returns false instead of a division error")
+		}
+		if dup {
+			c.ob("C03-R12", fnKey(fn)+"#operand-used-twice", fn.Pos(), false, "a binary node is built with the same operand expression on both sides (x*2 -> x+x): a call operand is evaluated twice and \"ab\"*2 becomes \"abab\" instead of a type error")
+		}
+		if !returnsOperand && !returnsLiteral && !dup {
+			c.ob("C03-R12", fnKey(fn)+"#no-type-dependent-identity", fn.Pos(), true, "")
+		}
+	}
+}
+
+// derivesFromOnlyPhis: v is a value satisfying pred, possibly through phis / local cells only.
+func derivesFromOnlyPhis(v ssa.Value, pred func(ssa.Value) bool) bool {
+	seen := map[ssa.Value]bool{}
+	var walk func(v ssa.Value, d int) bool
+	walk = func(v ssa.Value, d int) bool {
+		if v == nil || seen[v] || d > 10 {
+			return false
+		}
+		seen[v] = true
+		if pred(v) {
+			return true
+		}
+		switch x := v.(type) {
+		case *ssa.Phi:
+			for _, e := range x.Edges {
+				if walk(e, d+1) {
+					return true
+				}
+			}
+		case *ssa.UnOp:
+			if al, ok := x.X.(*ssa.Alloc); ok && x.Op == token.MUL {
+				for _, r := range refs(al) {
+					if st, ok := r.(*ssa.Store); ok && st.Addr == ssa.Value(al) && walk(st.Val, d+1) {
+						return true
+					}
+				}
+			}
+		case *ssa.ChangeInterface:
+			return walk(x.X, d+1)
+		}
+		return false
+	}
+	return walk(v, 0)
 }
 
 func nodeText(c *Ctx, n ast.Node) string {
